@@ -6,6 +6,7 @@
 ;;        a Scheme error while matching one string gives  M!<msg>  /  S!<msg>
 ;;   or   id ERR <message>        when (regexp sre) raises
 ;; also:  (id anchors str ...) -> id A <bits per position>   the internal predicates match/bos .. match/nwb at every position
+;; also:  (id ge (ng (slot ...) (slot ...)) ...) -> id Q <0/1 of the internal regexp-match>=? on two constructed match vectors>
 ;; also:  (id reps (from to) ...) -> id X <shape of (sre-expand-reps from to '(seq ($ x)))>
 ;; also:  (id range sre (str start end) ...) -> like R, calling (regexp-matches rx str start end) / (regexp-search rx str start end)
 ;; also:  (id fold sre str ...) -> id G F<spans kons saw>;E<regexp-extract>;S<regexp-split>;P<regexp-partition>;R<regexp-replace with "-">
@@ -127,6 +128,31 @@
                           (write-string (guard (e (#t "!")) (if (p s sc ch start end #f) "1" "0"))))
                         preds)
                        (lp (+ i 1)))))))
+           (cddr c))))))
+     ((eq? (cadr c) 'ge)
+      ;; (id ge (ng (slot ...) (slot ...)) ...) -> id Q 0/1 ...   the internal regexp-match>=? on two match vectors
+      ;; (slot = index into a 12-character string, or -1 for #f) of a regexp whose non-greedy-indexes are ng
+      (let ((ge? (internal 'regexp-match>=?))
+            (mk-match (internal '%make-regexp-match))
+            (mk-rx (internal 'make-rx))
+            (str "abcdefghijkl"))
+        (cond
+         ((not (and ge? mk-match mk-rx))
+          (write-string " ERR internal-regexp-match>=?-not-found"))
+         (else
+          (write-string " Q")
+          (for-each
+           (lambda (x)
+             (write-string " ")
+             (write-string
+              (guard (e (#t (string-append "!" (msg-of e))))
+                (let* ((rx (mk-rx #f 0 (length (cadr x)) (car x) (vector) '() #f))
+                       (vec (lambda (ls)
+                              (list->vector
+                               (map (lambda (k) (and (>= k 0) (string-index->cursor str k))) ls))))
+                       (m1 (mk-match (vec (cadr x)) rx str))
+                       (m2 (mk-match (vec (car (cddr x))) rx str)))
+                  (if (ge? m1 m2) "1" "0")))))
            (cddr c))))))
      ((eq? (cadr c) 'reps)
       ;; (id reps (from to) ...) -> id X <shape> ...   to = #f for "at least"; the internal sre-expand-reps applied to
